@@ -7,7 +7,7 @@ HOOKS = {
     "add_only": True,
 }
 ENGINES = [
-    {"name": "kani", "path": "cargo kani (0.68.0, CBMC 6.11.0, CaDiCaL)", "serves_properties": ["C02", "C04", "C05", "C07", "C08", "C09", "C10", "C11", "C12", "C13", "C16", "C18"],
+    {"name": "kani", "path": "cargo kani (0.68.0, CBMC 6.11.0, CaDiCaL)", "serves_properties": ["C02", "C04", "C05", "C08", "C09", "C10", "C11", "C12", "C13", "C18"],
      "kind_free_text": "contract harnesses (assume pre / call real function text / assert post), loop-free over full symbolic domain"},
     {"name": "verus", "path": "verus 0.2026.09.13 (Z3)", "serves_properties": ["C04", "C05", "C08"],
      "kind_free_text": "lemma layer: unbounded induction over sequences/maps on the kernels the Kani contracts are stated in"},
@@ -42,13 +42,6 @@ CLAIMED = {
         "(window) hypothesis. The shape of the two lists over a whole peer state is a bounded stand-in (thorough tier).",
         "DESIGN.md section 4, C05",
         "Window hypothesis => acceptance is a lemma; that every stamp in play is inside one window is the property's own hypothesis. poller.rs glue (handle_removals/modified) is read, not verified."),
-    "C07": _c(
-        _CB + ": bounded Kani contract on load_states_from_storage/load_states sliced from group.rs (ghost row store, recording spawn stand-in), plus the handler contracts of C02 "
-        "(storage written before the in-memory set)",
-        "For every storage content within the bound the state handed to each keyspace actor is exactly the stored rows (ids, stamps, live/tombstone), nothing else; a failed read "
-        "starts nothing. Acked writes are in storage by the Ok branch of the handler contracts.",
-        "DESIGN.md section 4, C07",
-        "Bounded: 2 keyspaces x 2 rows (level 'proof' counts only the class-P obligations it reuses; the load contract is listed under bounded_checks). Convergence after restart (C01) not decided."),
     "C08": _c(
         _CB + ": Kani contracts on purge_old_deletes (bounded tombstone map), is_ts_before_last_observed_event, insert/delete (cut-off monotone, refusals change nothing) on the real "
         "orswot.rs; Verus lemmas: purged deletes stay refused under any later cut-off, purging is invisible to every later operation (simulation step)",
@@ -88,12 +81,6 @@ CLAIMED = {
         "an inductive step, hence every add/remove history inside that size.",
         "DESIGN.md section 4, C13",
         "Locks are exclusive cells; crate::hash injective on registered URIs; HTTP glue in net/server.rs read, not verified.", engine="kani"),
-    "C16": _c(
-        _CB + " (bounded): Kani contract on watch_membership_changes sliced from datacake-node/src/lib.rs for one transition from an arbitrary previous snapshot; consumer fold checked in the same harness",
-        "Bounded contract checking: joined/left are exact for any pair of consecutive snapshots over 3 ids x 2 addresses x 2 DCs (left carries the member as it was, with the address it had); "
-        "applying the events yields exactly the current others; departed addresses are disconnected; the selector gets exactly the current layout.",
-        "DESIGN.md section 4, C16",
-        "Known finding D6 (late/slow subscriber on the latest-value channel) is recorded, see known_findings.txt. Stand-ins for stream, channel, network, selector.", engine="kani"),
     "C18": _c(
         _CB + ": rely/guarantee reduction -- one sequential Kani contract on get_or_create_keyspace/add_state sliced from group.rs with an arbitrary (havoc) group map and environment steps at "
         "both former await points",
@@ -104,6 +91,16 @@ CLAIMED = {
 }
 
 NOT_APPLICABLE = {
+    "C03": "merge could not be brought within the verifier's reach: the bounded Kani contract for OrSWotSet::merge with ONE key per side (harness os_merge_kernel, kept in the tree) did not "
+           "finish in 40 min / 20 GB, and Verus rejects the entry-API/closure idioms of orswot.rs; without a code-level obligation the algebraic lemmas over the merge kernel would prove a model",
+    "C07": "KeyspaceGroup::load_states_from_storage could not be brought within the verifier's reach: with vcoll stand-ins, with the callee load_states replaced by a contract stub, and with "
+           "the real std collections under concrete counts, the bounded Kani contract (1 keyspace x 2 rows) exhausts 24-40 GB or 20 min; load_states alone (gr_load_states) and the "
+           "unbounded Verus replay lemma (lemmas/restart.rs) are discharged but do not decide the property without the caller, so it is not claimed",
+    "C15": "DCAwareSelector::select_nodes / select_n_nodes (iterator adapters over &mut map entries, rand::choose_multiple, rotating cursors) were not brought under contract: functions of "
+           "comparable shape (watch_membership_changes, load_states_from_storage) already exceed CBMC's memory in this sandbox; defect D7 found by reading is described in DESIGN.md, not fixed",
+    "C16": "watch_membership_changes could not be brought within the verifier's reach: the bounded Kani contract for ONE transition over one other node exhausts 24 GB with the vcoll "
+           "stand-ins and times out (20 min) with the real std collections under concrete scenarios; the unbounded Verus fold lemma (lemmas/membership.rs) is discharged and defect D5 was "
+           "demonstrated natively and repaired (fix commit 4f8132e), but the property is not claimed",
     "C01": "whole-cluster convergence over all histories, delivery schedules and repair orders: a multi-process history property with no function boundary to carry a postcondition; its single-node ingredients are decided under C02/C04/C05/C07/C08",
     "C06": "spans issuer, transport and N remote nodes (eventual, cross-process); contracts decide only its local ingredients (selection count under C15, write-before-reply under C02)",
     "C14": "schedule/fault quantifier over hyper/h2/tokio/turmoil connection glue; Kani has no concurrency support and no function in /repo owns the behaviour",
